@@ -87,8 +87,10 @@ contract(_G + "to_polycollection", props=["C15", "C08"],
          returns="opaque",
          ensures=[
              # the caller gets a private copy of what a fresh grid builds for exactly these arguments
-             "implies(not return_indices, not is_tuple(result) and same(result, uf('deepcopy', uf('build_pc', src(self), periodic_elements, projection))))",
-             "implies(return_indices, is_tuple(result) and same(item(result, 0), uf('deepcopy', uf('build_pc', src(self), periodic_elements, projection))) "
+             "implies(not return_indices, not is_tuple(result) and (same(result, uf('deepcopy', uf('build_pc', src(self), periodic_elements, projection))) "
+             "or (same(result, uf('build_pc', src(self), periodic_elements, projection)) and not same(result, self._poly_collection_cached_parameters['poly_collection']))))",
+             "implies(return_indices, is_tuple(result) and (same(item(result, 0), uf('deepcopy', uf('build_pc', src(self), periodic_elements, projection))) "
+             "or (same(item(result, 0), uf('build_pc', src(self), periodic_elements, projection)) and not same(item(result, 0), self._poly_collection_cached_parameters['poly_collection']))) "
              "and same(item(result, 1), uf('build_pc_idx', src(self), periodic_elements, projection)))",
              _INV_PC],
          raises=[("ValueError", "periodic_elements == 'bogus'", "iff")])
